@@ -41,6 +41,9 @@ THEOREMS = [
     "SqlglotModel.Properties.C17.expand_alias_unique_per_reference",
     "SqlglotModel.Properties.C17.expand_alias_last_part_witness",
     "SqlglotModel.Properties.C17.expand_alias_forgets_quoting_witness",
+    "SqlglotModel.Properties.C17.generated_cte_env_isolated",
+    "SqlglotModel.Properties.C17.cte_sibling_independence",
+    "SqlglotModel.Properties.C17.cte_shared_dict_leak_witness",
     "SqlglotModel.Properties.C17.twoCol_ok",
     "SqlglotModel.Properties.C17.stale_key_without_column_witness",
     "SqlglotModel.Properties.C17.twoSubq_ok",
@@ -58,6 +61,7 @@ KEY_NAMES = {
 
 
 KEY_PASSES = [1]
+CTE_PINS = [True, True]
 OUTER_LOOKUP = [False]  # set by translate(): to_node looks a column up in enclosing scopes (correlated subqueries)
 ALIAS_VARIANT = ["fullName"]
 WRAP_FORM = ["subquery_scopes"]  # set by translate(): how the Subquery-wrapper branch picks its inner scope
@@ -163,6 +167,47 @@ def translate(chk: Check) -> str:
             elif ".parent" in ast.unparse(lp):
                 chk.broken.append({"kind": "translator", "what": "C17 translator: structure changed: unrecognised enclosing-scope lookup in to_node"})
     chk.cov["outer_scope_lookup"] = OUTER_LOOKUP[0]
+    # scope building: does every child scope get its OWN copy of the parent's cte_sources mapping?
+    copies = inplace = None
+    try:
+        stree = ast.parse(open(os.path.join(REPO, "sqlglot", "optimizer", "scope.py"), encoding="utf-8").read())
+        for cls in [n for n in stree.body if isinstance(n, ast.ClassDef) and n.name == "Scope"]:
+            for fn in [n for n in cls.body if isinstance(n, ast.FunctionDef) and n.name == "branch"]:
+                assigned = {ast.unparse(a.targets[0]): a.value for a in ast.walk(fn) if isinstance(a, ast.Assign) and len(a.targets) == 1}
+
+                def fresh(node, depth=0):
+                    # True: always a new dict; False: can be the parent's dict itself; None: unknown shape
+                    if isinstance(node, ast.Dict):
+                        return True if all(k is None for k in node.keys) else None
+                    if isinstance(node, ast.Call) and (ast.unparse(node.func) == "dict" or ast.unparse(node.func).endswith(".copy")):
+                        return True
+                    if isinstance(node, ast.IfExp):
+                        a, b = fresh(node.body, depth), fresh(node.orelse, depth)
+                        return None if a is None or b is None else (a and b)
+                    if isinstance(node, ast.Attribute) and ast.unparse(node) == "self.cte_sources":
+                        return False
+                    if isinstance(node, ast.Name) and node.id in assigned and depth < 3:
+                        return fresh(assigned[node.id], depth + 1)
+                    return None
+
+                calls = [c for c in ast.walk(fn) if isinstance(c, ast.Call) and ast.unparse(c.func) == "Scope"]
+                kws = [k.value for c in calls for k in c.keywords if k.arg == "cte_sources"]
+                if len(kws) == 1:
+                    copies = fresh(kws[0])
+        for fn in [n for n in stree.body if isinstance(n, ast.FunctionDef) and n.name == "_traverse_ctes"]:
+            upd = [c for c in ast.walk(fn) if isinstance(c, ast.Call) and ast.unparse(c.func) == "scope.cte_sources.update"]
+            asg = [a for a in ast.walk(fn) if isinstance(a, ast.Assign) and any(ast.unparse(t_) == "scope.cte_sources" for t_ in a.targets)]
+            if len(upd) == 1 and not asg:
+                inplace = True
+            elif not upd and len(asg) == 1:
+                inplace = False
+    except (OSError, SyntaxError):
+        pass
+    if copies is None or inplace is None:
+        chk.broken.append({"kind": "translator", "what": f"C17 translator: structure changed: cte_sources handling in scope.py (branch copies={copies}, _traverse_ctes in place={inplace})"})
+        copies, inplace = (True if copies is None else copies), (True if inplace is None else inplace)
+    CTE_PINS[:] = [copies, inplace]
+    chk.cov["scope_cte_sources"] = {"branch_copies": copies, "traverse_ctes_updates_in_place": inplace}
     # which expression the alias of the replacing derived table is built from
     variant = None
     try:
@@ -196,6 +241,9 @@ def translate(chk: Check) -> str:
         f"def refNormalisations : Nat := {n_ref}\n"
         f"/-- the expression exp.expand builds the alias of the replacing derived table from -/\n"
         f"def expandAliasVariant : AliasVariant := .{ALIAS_VARIANT[0]}\n"
+        f"/-- scope.py: Scope.branch gives every child a NEW cte_sources dict / _traverse_ctes updates it in place -/\n"
+        f"def branchCopiesCteSources : Bool := {'true' if CTE_PINS[0] else 'false'}\n"
+        f"def traverseCtesUpdatesInPlace : Bool := {'true' if CTE_PINS[1] else 'false'}\n"
         "end SqlglotModel.Generated.C17\n"
     )
 
@@ -220,6 +268,16 @@ class S:
         self.collist = collist
         self.ref_collist = ref_collist
         self.unaliased = unaliased  # sources= presentation: referenced by its (possibly qualified) name, no AS
+        self.inline_only = False  # written as an inline derived table in every presentation
+
+
+class R(S):
+    """a reference BY NAME to a CTE that is lexically visible at this point (`q` = its body, resolved by construction:
+    ground truth is lexical scoping); rendered `name AS alias` in every presentation"""
+
+    def __init__(self, ref_name, target):
+        S.__init__(self, target)
+        self.ref_name = ref_name
 
 
 class P:
@@ -238,6 +296,7 @@ class P:
 class Sel:
     def __init__(self, projs, frm, where=None, distinct=False, bare=False):
         self.bare = bare  # every column reference is written unqualified (all source column names are distinct)
+        self.withs = []  # this select's own WITH: [(name, query)], each visible to the later ones and to the body
         self.projs = projs
         self.frm = frm  # list of (alias, T|S)
         self.where = where  # (alias, col) used only in WHERE: does not flow
@@ -340,6 +399,12 @@ def features(q, acc=None, depth=0):
             if s.unaliased:
                 acc.add("unaliased-src")
             features(s.q, acc, depth + 1)
+    if q.withs:
+        acc.add("nested-with" if depth > 0 else "with")
+        for _, wq in q.withs:
+            features(wq, acc, depth + 1)
+    if any(isinstance(s_, R) for _, s_ in q.frm):
+        acc.add("cte-ref")
     if q.bare:
         acc.add("bare-cols")
     if len(q.frm) > 1:
@@ -404,7 +469,7 @@ def gen_select(rng, depth, ncols=None, shared=None):
         frm.sort(key=lambda x: isinstance(x[1], S))
     all_names = [(a, n) for a, s in frm for n in src_names(s)]
     flat = [n for _, n in all_names]
-    sel_bare = len(set(flat)) == len(flat) and rng.random() < 0.3
+    sel_bare = len(set(flat)) == len(flat) and not (set(flat) & {a for a, _ in frm}) and rng.random() < 0.3
     if sel_bare:
         # unqualified column references only: sources may then be referenced WITHOUT an alias
         for _, s_ in frm:
@@ -443,7 +508,9 @@ def gen_select(rng, depth, ncols=None, shared=None):
                 # alias-qualified, so neither the name nor the alias may be captured by the inner FROM list
                 inner_cols = {n for _, s_ in sq0.frm for n in src_names(s_)}
                 inner_al = {a for a, _ in sq0.frm}
-                cand = [(a, c) for a, c in all_names if c not in inner_cols and a not in inner_al and flat.count(c) == 1]
+                # (a bare name equal to an inner table ALIAS is a whole-row reference in bigquery / postgres / duckdb)
+                cand = [(a, c) for a, c in all_names if c not in inner_cols and a not in inner_al and c not in inner_al
+                        and flat.count(c) == 1]
                 if cand:
                     sq0.projs[0] = P("expr", sq0.projs[0].name, sq0.projs[0].cols, sq0.projs[0].subqs, bare=False,
                                      outer=[rng.choice(cand)])
@@ -462,6 +529,70 @@ def gen_select(rng, depth, ncols=None, shared=None):
             if isinstance(s_, S):
                 s_.unaliased = False
     return Sel(projs, frm, where, distinct=rng.random() < 0.1, bare=sel_bare)
+
+
+def simple_body(rng, table, out):
+    """SELECT <col> AS <out…> FROM <table>: a CTE / derived-table body with the given output names"""
+    cols = BASE[table]
+    return Sel([P("expr", o, [(table, rng.choice(cols))]) for o in out], [(table, T(table))])
+
+
+def gen_nested_with(rng, shape=None, shadow=None):
+    """WITH nested inside a derived table / scalar subquery / CTE body whose CTE name N shadows an outer CTE or a base
+    table, with siblings before and after that select from the same name, all under an outer WITH with >= 1 CTE.
+    Ground truth is LEXICAL scoping, built in by construction: an `R` source points at the definition visible where it
+    is written (the inner one inside the branch that defines it, the outer CTE / the base table in the siblings)."""
+    shape = shape or rng.choice(["derived", "derived", "scalar", "cte-body", "earlier-sibling"])
+    shadow = shadow or rng.choice(["cte", "cte", "table"])
+    out = rng.sample(["x", "y", "z"], rng.choice([1, 2]))
+    tabs = rng.sample(["t", "u", "v", "orders"], 3)
+    if shadow == "cte":
+        name = rng.choice(["c", "k"])
+        outer_def = simple_body(rng, tabs[0], out)
+        root_withs = [(name, outer_def)]
+
+        def outer_ref():
+            return R(name, outer_def)
+    else:
+        name = tabs[0]  # the nested CTE is named like a base table; the siblings mean the TABLE
+        other = simple_body(rng, tabs[2], ["m"])
+        root_withs = [("k", other)]
+
+        def outer_ref():
+            return T(name)
+    inner_def = simple_body(rng, tabs[1], out if shadow == "cte" else list(BASE[name])[:len(out)])
+    cols_of = (lambda: out) if shadow == "cte" else (lambda: list(BASE[name])[:len(out)])
+    names = cols_of()
+
+    def pick(alias, src):
+        # SELECT <names> FROM <src> AS alias
+        return Sel([P("expr", n, [(alias, n)], bare=True) for n in names], [(alias, src)])
+
+    early_body = pick("w", R(name, inner_def))
+    early_body.withs = [(name, inner_def)]
+    early = S(early_body)
+    late = S(pick("e", outer_ref()))
+    before = S(pick("d", outer_ref()))  # a sibling BEFORE the nested WITH sees the outer meaning as well
+    n0 = names[0]
+    if shape == "scalar":
+        sq = Sel([P("expr", "s", [("e", n0)])], [("e", outer_ref())])
+        root = Sel([P("expr", "qa", [("q", n0)]), P("expr", "ra", [], [sq])], [("q", early)])
+    elif shape == "earlier-sibling":
+        root = Sel([P("expr", "pa", [("p", n0)]), P("expr", "qa", [("q", n0)]), P("expr", "ra", [("r", n0)])],
+                   [("p", before), ("q", early), ("r", late)])
+    else:
+        root = Sel([P("expr", "qa", [("q", n0)]), P("expr", "ra", [("r", names[-1])])], [("q", early), ("r", late)])
+    if shape == "cte-body":
+        # the siblings live inside the body of a LATER CTE of the outer WITH
+        for s_ in (early, late, before):
+            s_.inline_only = True
+        body = root
+        root = Sel([P("expr", "qa", [("f", "qa")], bare=True), P("expr", "ra", [("f", "ra")], bare=True)], [("f", R("w2", body))])
+        root.withs = root_withs + [("w2", body)]
+    else:
+        root.withs = root_withs
+    root.family = f"nested-with:{shape}:{shadow}"
+    return root
 
 
 def gen_query(rng, depth, ncols=None, allow_union=True):
@@ -549,8 +680,10 @@ def render_source(alias, s, ctx):
         if al == s.name and ctx.ren(alias) == alias:
             return ctx.path + s.name
         return f"{ctx.path}{s.name} AS {al}"
+    if isinstance(s, R):
+        return f"{s.ref_name} AS {al}"
     cl = "(" + ", ".join(s.collist) + ")" if s.collist else ""
-    if ctx.pres == "inline":
+    if ctx.pres == "inline" or s.inline_only:
         return f"({render(s.q, ctx)}) AS {al}{cl}"
     name = ctx.name_for(s)
     if ctx.pres == "cte" and s.collist and not s.ref_collist:
@@ -590,8 +723,10 @@ def render(q, ctx, outer=None):
             return '"' + txt + '"'
         return "'" + txt + "'"
 
+    aliases_here = {a_ for a_, _ in q.frm}
+
     def colref(a, c, i):
-        if q.bare or (counts.get(c) == 1 and ((sum(map(ord, a + c)) + i) % 3 == 0)):
+        if q.bare or (counts.get(c) == 1 and c not in aliases_here and ((sum(map(ord, a + c)) + i) % 3 == 0)):
             return qid(c, i)
         return f"{ctx.ren(a)}.{qid(c, i)}"
 
@@ -620,6 +755,12 @@ def render(q, ctx, outer=None):
     frm = ", ".join(render_source(a, s, ctx) for a, s in q.frm) if len(q.frm) == 1 else (
         render_source(*q.frm[0], ctx) + "".join(" CROSS JOIN " + render_source(a, s, ctx) for a, s in q.frm[1:]))
     sql = ("SELECT DISTINCT " if q.distinct else "SELECT ") + ", ".join(items) + " FROM " + frm
+    if q.withs:
+        defs = ", ".join(f"{n} AS ({render(wq, ctx)})" for n, wq in q.withs)
+        if q is ctx.root:
+            ctx.root_with = defs  # joined with the hoisted CTEs by present()
+        else:
+            sql = f"WITH {defs} {sql}"
     if q.where:
         sql += f" WHERE {q.where[1]} > 0" if q.bare else f" WHERE {ctx.ren(q.where[0])}.{q.where[1]} > 0"
     return sql
@@ -647,11 +788,13 @@ def dialect_traits(dialect):
 
 def present(q, pres, path="", ren=lambda a: a, dialect=None, style=0, nameforms=()):
     ctx = Ctx(pres, path, ren, dialect, style, nameforms)
+    ctx.root, ctx.root_with = q, None
     body = render(q, ctx)
     if style & 8:
         body = "(" + body + ")"  # parenthesised root query
-    if ctx.ctes:
-        body = "WITH " + ", ".join(ctx.ctes) + " " + body
+    defs = ([ctx.root_with] if ctx.root_with else []) + ctx.ctes  # the query's own WITH first: hoisted bodies may use it
+    if defs:
+        body = "WITH " + ", ".join(defs) + " " + body
     return body, (ctx.sources or None)
 
 
@@ -928,6 +1071,47 @@ def scopes_of(expression, refs=None):
     return {"scopes": out, "root": idx[id(root)], "cols": cols, "implicit": implicit, "borrowed": borrowed}, root, idx
 
 
+def cte_visibility(root, idx):
+    """for every scope that branches derived tables / subqueries: the mapping it hands down computed LEXICALLY from the
+    tree (inherited + own WITH), the names each child's own nested WITH defines, and what the REAL child scope resolves
+    every name to (child.cte_sources).  -> (entries for the driver, real answers)"""
+    _, exp, L, build_scope, qualify, Scope, ScopeType, find_all_in_scope = sg()
+
+    def own(sc):
+        return [[cte.alias, idx[id(cs)]] for cte, cs in zip(sc.ctes, sc.cte_scopes)] if len(sc.ctes) == len(sc.cte_scopes) else None
+
+    entries, real = [], []
+
+    def walk(sc, inherited):
+        o = own(sc)
+        if o is None:
+            return
+        env = list(reversed(o)) + inherited  # a later CTE of one WITH overrides an earlier one of the same name
+        done = []
+        for j, cs in enumerate(sc.cte_scopes):  # a CTE body sees the earlier CTEs of the same WITH
+            walk(cs, list(reversed(o[:j])) + inherited)
+        kids = [k for k in list(sc.table_scopes) + list(sc.subquery_scopes) if id(k) in idx and not any(k is c for c in sc.cte_scopes)]
+        kids = [k for i_, k in enumerate(kids) if not any(k is k2 for k2 in kids[:i_])]
+        owns = [own(k) for k in kids]
+        if kids and all(x is not None for x in owns) and (env or any(owns)):
+            names = sorted({n for n, _ in env} | {n for x in owns for n, _ in x})
+            q, r = [], []
+            for i_, k in enumerate(kids):
+                for n in names:
+                    v = k.cte_sources.get(n)
+                    q.append([i_, n])
+                    r.append(idx.get(id(v)) if isinstance(v, Scope) else None)
+            entries.append({"E": env, "sibs": [list(reversed(x)) for x in owns], "q": q})
+            real.append(r)
+        for k in kids:
+            walk(k, env)
+        for us in sc.union_scopes:
+            walk(us, inherited)
+
+    walk(root, [])
+    return entries, real
+
+
 def wrap_inner(s):
     """the scope the Subquery-wrapper branch of to_node recurses into (None: it falls through), per the source form"""
     if WRAP_FORM[0] == "inner_query":
@@ -1143,13 +1327,18 @@ def all_outer_cols(q, enclosing=None, acc=None):
     return acc
 
 
+def keep_flags(new, old):
+    new.inline_only = old.inline_only
+    return new
+
+
 def outer_refs(sq):
     if isinstance(sq, Uni):
         return outer_refs(sq.left) + outer_refs(sq.right)
     return [ac for p in sq.projs for ac in p.outer]
 
 
-def shrink_candidates(q):
+def _shrink_candidates(q):
     """smaller queries (structurally): yields (new_q) — drop a projection, replace a sub-query source by a base table
     of the same column names is not possible in general, so: unwrap union branches, drop scalar subqueries, drop WHERE,
     drop a collist, drop a second source when unused, recurse into sub-queries"""
@@ -1187,14 +1376,14 @@ def shrink_candidates(q):
                 for j in range(len(p.cols)):
                     yield Sel(q.projs[:i] + [P("expr", p.name, p.cols[:j] + p.cols[j + 1:], p.subqs, bare=False, outer=p.outer)] + q.projs[i + 1:], q.frm, q.where, q.distinct, q.bare)
     for i, (a, s) in enumerate(q.frm):
-        if isinstance(s, S):
+        if isinstance(s, S) and not isinstance(s, R):
             names = src_names(s)
             if s.collist:
                 # keep the visible names: only droppable when identical to the inner names
                 if list(s.collist) == out_names(s.q):
-                    yield Sel(q.projs, q.frm[:i] + [(a, S(s.q, None, False, s.unaliased))] + q.frm[i + 1:], q.where, q.distinct, q.bare)
+                    yield Sel(q.projs, q.frm[:i] + [(a, keep_flags(S(s.q, None, False, s.unaliased), s))] + q.frm[i + 1:], q.where, q.distinct, q.bare)
             for q2 in shrink_candidates(s.q):
-                s2 = S(q2, s.collist, s.ref_collist, s.unaliased)
+                s2 = keep_flags(S(q2, s.collist, s.ref_collist, s.unaliased), s)
                 try:
                     n2 = src_names(s2)
                 except Exception:  # noqa
@@ -1211,6 +1400,14 @@ def shrink_candidates(q):
                         continue
                 # every other reference to the same shared sub-query keeps pointing at the old one (sharing may be lost)
                 yield Sel(q.projs, q.frm[:i] + [(a, s2)] + q.frm[i + 1:], q.where, q.distinct, q.bare)
+
+
+def shrink_candidates(q):
+    """as _shrink_candidates, keeping a select's own WITH (definitions are never shrunk: references point at them)"""
+    for q2 in _shrink_candidates(q):
+        if isinstance(q, Sel) and isinstance(q2, Sel) and q.withs and not q2.withs:
+            q2.withs = q.withs
+        yield q2
 
 
 def size(q):
@@ -1285,14 +1482,22 @@ def correspond(chk: Check, cases):
                 continue
             req, root, idx, expression = m
             try:
+                req["cte"], real_cte = cte_visibility(root, idx)
+            except Exception:  # noqa
+                req["cte"], real_cte = [], []
+            req["_real_cte"] = real_cte
+            try:
                 real_all, entries = real_cache(root, idx, expression, case.dialect)
             except Exception as e:  # noqa
                 real_all, entries = ("exc", f"{type(e).__name__}: {e}"), None
+            real_cte = req.pop("_real_cte")
             reqs.append(json.dumps(req))
+            req["_real_cte"] = real_cte
             meta.append((case, pres, sql, sources, req, real_all, entries))
             if any(x["k"] == "wrap" for x in req["scopes"]):
                 chk.count("model:wrap-branch-cases")
-            if pres == "src" and sources and not (case.feats & {"collist", "ref-collist"}) and not isinstance(real_all, tuple):
+            # (a source body that mentions a CTE of the MAIN query is not closed: qualified on its own it sees a table)
+            if pres == "src" and sources and not (case.feats & {"collist", "ref-collist", "cte-ref"}) and not isinstance(real_all, tuple):
                 # the same presentation WITHOUT the real exp.expand: the model expands (Model.expandQ)
                 try:
                     ureq = to_model_unexpanded(sql, sources, case.schema, case.path, case.dialect)
@@ -1316,6 +1521,14 @@ def correspond(chk: Check, cases):
             raise HarnessError(f"C17 driver rejected a request: {line}: {json.dumps(req)[:300]}")
         o = json.loads(line)
         cols = req["cols"]
+        if pres != "src-unexpanded" and req.get("cte"):
+            chk.count("model:cte-visibility-cases")
+            if any(any(x for x in e_["sibs"]) for e_ in req["cte"]):
+                chk.count("model:cte-visibility-nested-with-cases")
+            if o.get("cte") != req["_real_cte"]:
+                chk.correspondence_broken("CTE visibility: what each child scope resolves a CTE name to (real build_scope vs model cteVisible)",
+                                          {"sql": sql, "sources": sources, "entries": req["cte"], "real": req["_real_cte"], "model": o.get("cte")})
+                hints.append(case)
         if pres == "src-unexpanded":
             chk.count("model:expand-cases")
             for a in ("inl", "all", "unc"):
@@ -1376,6 +1589,9 @@ def correspond(chk: Check, cases):
 
 # ------------------------------------------------------------------------------------------ run
 def gen_case(rng, max_depth):
+    if rng.random() < 0.1:
+        # nested WITH shadowing an outer CTE / a base table between sibling scopes (unqualified names: flat schema)
+        return Case(gen_nested_with(rng), "", rng.choice(DIALECTS + [None, None]), rng.choice([0, 0, 1, 8]))
     depth = rng.choice(list(range(1, max_depth + 1)))
     q = gen_query(rng, depth)
     path = rng.choice(["", "", "db.", "cat.db."])
@@ -1429,6 +1645,11 @@ def corpus_cases():
     q3 = Sel([P("expr", "total", [], [inner])], [("q", S(src_d, unaliased=True))], bare=True)
     inner4 = Sel([P("expr", "k", [("p", "a")], outer=[("orders", "h")])], [("p", S(src_a, unaliased=True))], bare=True)
     q4 = Sel([P("expr", "total", [("orders", "i")], [inner4])], [("orders", T("orders"))], bare=True)
+    # --- nested WITH shadowing an outer CTE / a base table: a later sibling must still see the outer meaning
+    import random as _random
+
+    for shape, shadow in (("derived", "cte"), ("derived", "table"), ("scalar", "cte"), ("cte-body", "cte"), ("earlier-sibling", "table")):
+        out.append(gen_nested_with(_random.Random(shape + shadow), shape, shadow))
     for q_, nf in ((q1, (9, 9, 9)), (q1, (10, 10, 10)), (q2, (9, 9)), (q3, (9, 9, 9)), (q4, (10, 9))):
         q_ = Sel(q_.projs, q_.frm, q_.where, q_.distinct, q_.bare)
         q_.nameforms = nf
